@@ -222,23 +222,223 @@ def check_case(pid, lines, desc, i, m, drv, rep, hist):
             fail = judge_c12(drv, i, mnemonics_of(lines))
         elif i[0] != "DIAG":
             fail = "outcome %s" % (i,)
+    elif pid == "C02":
+        fail = judge_c02(lines, desc, i)
+    elif pid == "C03":
+        fail = judge_c03(drv, lines, desc, i)
+    elif pid == "C04":
+        fail = judge_c04(drv, lines, desc, i)
+    elif pid == "C05":
+        fail = judge_c05(lines, desc, i)
+    elif pid == "C13":
+        if i[0] not in ("OK", "DIAG"):
+            fail = "assembly ended with %s" % (i,)
     return fail
+
+
+# ---------------------------------------------------------------------------------------------- C02
+def judge_c02(lines, desc, i):
+    """-> None | text | list of (statement index, text): every failing statement is reported separately"""
+    want = desc.get("expect")
+    if want == "diag":
+        return None if i[0] == "DIAG" else "%s accepted/crashed: %s" % (desc.get("why"), i[0])
+    if i[0] != "OK":
+        return None             # not accepted: termination / internal errors are property C13's business
+    _, img, origin, name, st, syms = i
+    mns = mnemonics_of(lines) if not desc.get("files") else None
+    cat = "".join(b for _, _, b in st)
+    if cat != img:
+        return "image is not the concatenation of the statements' bytes"
+    out = []
+    for k, (a, sz, b) in enumerate(st):
+        if len(b) // 2 != sz:
+            out.append((k, "statement %d: listing reserves %d bytes, %d emitted (%s)" % (k, sz, len(b) // 2, b)))
+    for k in range(len(st) - 1):
+        if mns and mns[k + 1] == "ORG":
+            continue
+        if st[k + 1][0] != st[k][0] + st[k][1]:
+            out.append((k, "statement %d at $%04X + %d bytes, next statement listed at $%04X" % (k, st[k][0], st[k][1], st[k + 1][0])))
+    if not out:
+        # loading the image at the origin puts every statement's bytes at its listing address
+        base = origin if origin is not None else 0
+        off = 0
+        for k, (a, sz, b) in enumerate(st):
+            if b and base + off != a:
+                out.append((-1, "statement %d listed at $%04X but its bytes load at $%04X (origin $%04X + %d)" % (k, a, base + off, base, off)))
+                break
+            off += len(b) // 2
+    # symbols
+    symd = dict(syms)
+    import kf
+    stl = kf.statements(lines) if mns else []
+    if mns and len(stl) == len(st):
+        for k, (lb, mn, op) in enumerate(stl):
+            if not lb:
+                continue
+            if mn == "EQU":
+                lit = kf.literal(op)
+                if lit is not None and lit[0] >= 0 and int(symd.get(lb, "0") or "0", 16) != lit[0]:
+                    out.append((k, "EQU symbol %s = %s, defined as %s" % (lb, symd.get(lb), op)))
+            elif mn != "ORG":
+                if lb not in symd or symd[lb] == "" or int(symd[lb], 16) != st[k][0]:
+                    out.append((k, "label %s has value %s, its statement is listed at $%04X" % (lb, symd.get(lb), st[k][0])))
+    return out or None
+
+
+# ---------------------------------------------------------------------------------------------- C03
+REL_RE = re.compile(r"^\[?([A-Za-z][A-Za-z0-9@]*)(?:([+-])(\d+))?(,PCR)?\]?$")
+
+
+def judge_c03(drv, lines, desc, i):
+    """every branch / label,PCR statement: (address of next instruction + d) mod 65536 = address of label + k;
+    a short branch out of range must be rejected"""
+    if desc.get("expect") == "diag":
+        return None if i[0] == "DIAG" else "short branch out of range not rejected: %s" % (i[0],)
+    if i[0] == "DIAG":
+        return "in-range program rejected" if desc.get("expect") == "ok" else None
+    if i[0] != "OK":
+        return None
+    import kf
+    st = i[4]
+    stl = kf.statements(lines)
+    if len(stl) != len(st):
+        return None
+    addr_of = {}
+    out = []
+    for k, (lb, mn, op) in enumerate(stl):
+        if lb and mn != "EQU":
+            addr_of[lb] = st[k][0]
+    for k, (lb, mn, op) in enumerate(stl):
+        ins = next((x for x in asmlib.table() if x.mnemonic == mn), None)
+        if ins is None or ins.is_pseudo:
+            continue
+        m = REL_RE.match(op)
+        if not m or m.group(1) not in addr_of:
+            continue
+        is_branch = ins.is_short_branch or ins.is_long_branch
+        if not is_branch and not m.group(4):
+            continue
+        target = addr_of[m.group(1)] + (int(m.group(3)) if m.group(3) else 0) * (-1 if m.group(2) == "-" else 1)
+        a, sz, hb = st[k]
+        d = decode_stmt(drv, hb)
+        if d is None or d[2] != 0:
+            out.append((k, "statement %d (%s %s): %s is not one instruction" % (k, mn, op, hb)))
+            continue
+        f = d[1]
+        if f[0] in ("rel8", "rel16"):
+            disp = int(f[1])
+        elif f[0] == "idx" and f[1] in ("pc8", "pc16"):
+            disp = int(f[2])
+            if (f[3] == "1") != op.startswith("["):
+                out.append((k, "statement %d (%s %s): indirect flag wrong in %s" % (k, mn, op, hb)))
+                continue
+        else:
+            out.append((k, "statement %d (%s %s): %s decodes as %s" % (k, mn, op, hb, ",".join(f))))
+            continue
+        nxt = a + len(hb) // 2
+        if (nxt + disp) % 65536 != target % 65536:
+            out.append((k, "statement %d (%s %s) at $%04X: displacement %d reaches $%04X, target is $%04X" % (k, mn, op, a, disp, (nxt + disp) % 65536, target % 65536)))
+    return out or None
+
+
+# ---------------------------------------------------------------------------------------------- C04
+def expr_value(desc, obs):
+    """arithmetic value of the generated expression (Python ints, truncating division), labels taken from the
+    implementation's own symbol table; None = division by zero"""
+    symd = {k: (int(v, 16) if v else None) for k, v in obs[5]} if obs[0] == "OK" else {}
+    vals = []
+    for t in desc["terms"]:
+        if t[0] == "label":
+            if symd.get(t[1]) is None:
+                return "nolabel"
+            vals.append(symd[t[1]])
+        else:
+            vals.append(t[-1])
+    if len(vals) == 1:
+        return vals[0]
+    a, b = vals
+    op = desc["op"]
+    if op == "/" and b == 0:
+        return None
+    return {"+": a + b, "-": a - b, "*": a * b, "/": (abs(a) // abs(b)) * (1 if (a >= 0) == (b >= 0) else -1) if b else 0}[op]
+
+
+def judge_c04(drv, lines, desc, i):
+    k = desc["stmt"]
+    src = lines[k].strip()
+    if desc.get("divzero"):
+        return None if i[0] == "DIAG" else "division by zero not rejected: %s -> %s" % (src, i[0])
+    if i[0] == "DIAG":
+        # a result outside 0..65535 may be rejected; anything else must be accepted
+        return None if desc.get("may_reject") else "%s rejected" % src
+    if i[0] != "OK":
+        return "%s: %s" % (src, i)
+    val = expr_value(desc, i)
+    if val == "nolabel":
+        return None
+    if not 0 <= val <= 65535 and not desc.get("may_reject"):
+        return None
+    a, sz, hb = i[4][k]
+    want = val % 65536
+    pos = desc["pos"]
+    if pos == "equ":
+        got = dict(i[5]).get("R")
+        return None if got not in (None, "") and int(got, 16) == want else "%s: R = %s, expression value is $%X" % (src, got, want)
+    if pos in ("fcb", "fdb"):
+        if pos == "fcb" and not -128 <= val <= 255:
+            return "%s accepted (value %d does not fit a byte) -> %s" % (src, val, hb)
+        w = 2 if pos == "fcb" else 4
+        return None if hb == ("%0" + str(w) + "X") % (val % (256 if pos == "fcb" else 65536)) else "%s -> %s, value is $%X" % (src, hb, want)
+    d = decode_stmt(drv, hb)
+    if d is None or d[2] != 0:
+        return "%s -> %s is not one instruction" % (src, hb)
+    f = d[1]
+    if pos == "imm8" and not -128 <= val <= 255:
+        return "%s accepted (value %d does not fit 8 bits) -> %s" % (src, val, hb)
+    if pos == "pcr":
+        want = (val - (a + len(hb) // 2)) % 65536
+    ok = {"imm8": f == ["imm8", str(val % 256)],
+          "imm16": f == ["imm16", str(want)],
+          "ext": f in (["ext", str(want)], ["dir", str(want)]),
+          "extind": f == ["idx", "extind", str(want)],
+          "idx": (f[:2] in (["idx", "off5"], ["idx", "off8"], ["idx", "off16"]) and (int(f[3]) - want) % 65536 == 0) or (f[:2] == ["idx", "zero"] and want == 0),
+          "pcr": f[:2] in (["idx", "pc8"], ["idx", "pc16"]) and (int(f[2]) - want) % 65536 == 0}[pos]
+    return None if ok else "%s -> %s decodes as %s, expression value is $%X" % (src, hb, ",".join(f), val % 65536)
+
+
+# ---------------------------------------------------------------------------------------------- C05
+def judge_c05(lines, desc, i):
+    exp = desc.get("expect")
+    if exp == "diag":
+        return None if i[0] == "DIAG" else "%s: expected a diagnostic, got %s %s" % (desc.get("why"), i[0], i[1][:40] if i[0] == "OK" else "")
+    if i[0] != "OK":
+        return "%s: %s" % (lines[desc.get("stmt", 0)].strip()[:60], "rejected" if i[0] == "DIAG" else i)
+    k = desc.get("stmt", 0)
+    hb = i[4][k][2] if k < len(i[4]) else ""
+    if desc.get("kind") == "nobytes":
+        hb = i[1]                 # the whole image must be empty / only what the other statements emit
+        if len(i[4]) > 1:
+            hb = "".join(b for j, (_, _, b) in enumerate(i[4]) if j == k)
+    if hb != desc["bytes"]:
+        return "%s -> %s, specified %s" % (lines[desc.get("stmt", 0)].strip()[:60], hb[:60], desc["bytes"][:60])
+    return None
 
 
 # --------------------------------------------------------------------------------------------------
 
 def cases_for(pid, tier, rng):
     reps, rest = asmgen.mnemonic_shapes()
+    q = tier == "quick"
     if pid in ("C01", "C12"):
-        mns = reps + (rng.sample(rest, 12) if tier == "quick" else rest)
-        for c in asmgen.grid_cases(mns, rng, values_per_form=(10 if tier == "quick" else None)):
+        mns = reps + (rng.sample(rest, 12) if q else rest)
+        for c in asmgen.grid_cases(mns, rng, values_per_form=(10 if q else None)):
             yield c
-        for c in asmgen.label_cases(reps if tier == "quick" else reps + rest, rng):
+        for c in asmgen.label_cases(reps if q else reps + rest, rng):
             yield c
-        for c in asmgen.special_cases(rng, full=(tier != "quick")):
+        for c in asmgen.special_cases(rng, full=not q):
             yield c
         if pid == "C12":
-            n = 4000 if tier == "quick" else 60000
+            n = 4000 if q else 60000
             pool = [i.mnemonic for i in asmlib.real_instructions()]
             for _ in range(n):
                 mn = rng.choice(pool)
@@ -247,6 +447,40 @@ def cases_for(pid, tier, rng):
                 for _ in range(rng.choice([0, 1, 1, 2, 3])):
                     op = asmgen._mutate(rng, op).strip() or op
                 yield ([" %s %s\n" % (mn, op)], {"kind": "fuzz", "mn": mn, "operand": op})
+    elif pid == "C02":
+        for c in asmgen.grid_cases(reps, rng, values_per_form=(3 if q else 12)):
+            yield c
+        for c in asmgen.label_cases(reps[:4] if q else reps, rng):
+            yield c
+        for _ in range(1500 if q else 40000):
+            yield (asmgen.rand_program(rng), {"kind": "prog"})
+        for _ in range(100 if q else 2000):
+            p = asmgen.rand_program(rng, n=rng.choice([3, 6, 10]), org=False)
+            m = rng.randrange(3)
+            if m == 0:       # duplicate label
+                p.insert(rng.randrange(len(p) + 1), "DUP NOP\n")
+                p.insert(rng.randrange(len(p) + 1), "DUP %s\n" % rng.choice(["NOP", "RMB 2", "EQU 5", "FCB 1"]))
+                yield (p, {"kind": "prog", "expect": "diag", "why": "label defined twice"})
+            elif m == 1:     # undefined symbol
+                p.insert(rng.randrange(len(p) + 1), " %s\n" % rng.choice(["JMP NOWHERE", "LDA #UNDEF", "BRA MISSING", "LDX NOSUCH,PCR", "LDA NOSUCH+1"]))
+                yield (p, {"kind": "prog", "expect": "diag", "why": "symbol never defined"})
+            else:            # a later ORG / code before ORG
+                p.insert(rng.randrange(1, len(p) + 1), " ORG $%04X\n" % rng.choice([0x2000, 0x0100, 0x4000]))
+                if rng.random() < 0.5:
+                    p.insert(0, " ORG $1000\n")
+                yield (p, {"kind": "prog", "noncontiguous": True})
+    elif pid == "C03":
+        for c in asmgen.branch_cases(rng, tier):
+            yield c
+    elif pid == "C04":
+        for c in asmgen.expr_cases(rng, tier):
+            yield c
+    elif pid == "C05":
+        for c in asmgen.data_cases(rng, tier):
+            yield c
+    elif pid == "C13":
+        for c in asmgen.stress_cases(rng, tier):
+            yield c
 
 
 def run(pid, tier, seed, rep, info):
@@ -257,7 +491,7 @@ def run(pid, tier, seed, rep, info):
     known = kf.Known(pid)
     try:
         cases = list(known.witness_cases()) + list(cases_for(pid, tier, rng))
-        progs = [(l, None) for l, d in cases]
+        progs = [(l, d.get("files")) for l, d in cases]
         I = asmlib.impl_batch(progs)
         M = asmlib.model_batch(progs)
         for (lines, desc), i, m in zip(cases, I, M):
@@ -271,13 +505,20 @@ def run(pid, tier, seed, rep, info):
                 hist["unmodelled"] += 1
             fail = check_case(pid, lines, desc, i, m, drv, rep, hist)
             if fail is not None:
-                cls = known.classify(lines, desc, i)
-                if cls is not None and same:
-                    rep.known_finding(cls, known.describe(cls))
-                    hist["known:" + cls] += 1
-                    continue
-                rep.violation(fail, {"kind": "asm", "lines": lines, "desc": desc, "impl": str(i)[:3000], "model": str(m)[:3000],
-                                     "in_listed_class": cls, "impl_equals_model": same})
+                fails = fail if isinstance(fail, list) else [(desc.get("stmt"), fail)]
+                unlisted = []
+                for k, text in fails:
+                    cls = known.classify(lines, desc, i, k)
+                    if cls is not None and same:
+                        rep.known_finding(cls, known.describe(cls))
+                        hist["known:" + cls] += 1
+                    else:
+                        unlisted.append((k, text, cls))
+                if unlisted:
+                    k, text, cls = unlisted[0]
+                    rep.violation(text, {"kind": "asm", "lines": lines, "desc": {x: y for x, y in desc.items() if not callable(y)}, "files": desc.get("files"),
+                                         "impl": str(i)[:3000], "model": str(m)[:3000], "statement": k,
+                                         "in_listed_class": cls, "impl_equals_model": same, "all_failures": [t for _, t, _ in unlisted][:5]})
             elif not same:
                 rep.cov["disagreements_checked"] += 1
                 rep.violation("correspondence broken (model and implementation differ; the property oracle passes on this input): %s" % "".join(lines)[:120],
@@ -304,6 +545,11 @@ def run(pid, tier, seed, rep, info):
 
 RULES = {
     "C01": "statement grid: one mnemonic per distinct table-row shape (all at thorough) x every operand form of the README grammar x boundary values 0..65535 and -32768..-1 x every literal spelling (decimal, $ natural/2/3/4 digits, % 8/16, 'c, leading zero) and EQU symbols, labels before/after at origins 0/$10/$0E00, PSH/PUL lists, all TFR/EXG pairs; distinct = distinct source text; non-trivial = accepted by the implementation",
+    "C02": "random programs of 1..40 statements (every operand form, data directives, labels on any statement, forward/backward references, branches and label,PCR operands, ORG none/0/<$100/$100/high), the statement grid (size vs bytes of every form), duplicate-label / undefined-symbol / later-ORG variants; distinct = distinct source text; non-trivial = accepted",
+    "C03": "all 19 short and 19 long branch mnemonics and label,PCR / [label,PCR] / label+-k,PCR operands on 1- and 2-byte-opcode instructions, forward and backward, at distances around the 8-bit limits (every distance at thorough) and the 16-bit limits, with 0..3 other not-yet-sized PCR statements in between; distinct = distinct source text; non-trivial = accepted",
+    "C04": "every operand position (8/16-bit immediate, extended, extended indirect, index offset, PCR target, EQU, FCB, FDB) x {number, EQU symbol, label before, label after} op {number, EQU symbol, label} for + - * / x spellings x results around 0, 255/256, 32767/32768, 65535/65536, negative, division by zero; distinct = distinct source text; non-trivial = accepted",
+    "C05": "FCB/FDB value lists of length 1..64 in every spelling incl. negatives, out-of-range values and symbols; FCC strings of printable ASCII of length 0..255 with runs of spaces, ';' and every delimiter; RMB n for boundary and random n; EQU/ORG/SETDP/NAM/END/INCLUDE emit nothing; distinct = distinct source text; non-trivial = accepted",
+    "C13": "single-line mutations of valid programs, random lines over the source alphabet, the label,PCR boundary family at every distance with several undecided statements, INCLUDE cycles and missing files, empty operands, unterminated strings; outcome must be an image or a diagnostic, never an internal error or a time-out; a CLI sample checks exit status and that no output file is written; distinct = distinct source text; non-trivial = not blank",
     "C12": "the C01 grid plus ill-typed variants (out-of-range values, wrong registers, missing modes) and mutated operand strings over the operand alphabet for random mnemonics; distinct = distinct source text; non-trivial = accepted",
 }
 
@@ -317,8 +563,8 @@ def replay(pid, path):
     drv = common.Driver()
     try:
         lines, desc = r["lines"], r.get("desc", {})
-        i = asmlib.impl_asm(lines)
-        m = asmlib.model_batch([(lines, None)])[0]
+        i = asmlib.impl_asm(lines, r.get("files"))
+        m = asmlib.model_batch([(lines, r.get("files"))])[0]
         hist = collections.Counter()
         rep = common.Report(pid, "quick", 0)
         fail = check_case(pid, lines, desc, i, m, drv, rep, hist)
